@@ -141,6 +141,8 @@ def u_call_at(c):
     if out.raised:
         return
     c.oblige("post/one-timer-is-registered-and-its-handle-returned", len(rec.calls) == 1 and rec.calls[0][0] == "call_later" and out.value is rec.last)
+    if len(rec.calls) != 1 or rec.calls[0][0] != "call_later":
+        return
     kind, delay, fn, args = rec.calls[0]
     c.oblige("post/never-early: now + delay >= when", now + delay >= when)
     c.oblige("post/not-late: delay is exactly the remaining time, 0 if the deadline has passed", (delay == when - now) | ((when <= now) & (delay == 0)))
@@ -359,7 +361,7 @@ def u_add_future(c):
 def u_run_sync(c):
     import tornado.ioloop as I
     kind = c.choose("function", ["coroutine-returns-42-at-once", "returns-None", "raises", "coroutine-returns-7", "coroutine-raises", "returns-a-future-resolved-later", "never-finishes", "stops-the-loop",
-                                 "finishes-just-in-time", "native-coroutine-returns-None"])
+                                 "finishes-just-in-time", "native-coroutine-returns-None", "overruns-the-deadline-but-returns", "overruns-the-deadline-and-raises"])
     timeout = c.choose("timeout", [None, 0.05])
     if kind == "never-finishes" and timeout is None:
         c.cover("run_sync/skip")
@@ -401,6 +403,12 @@ def u_run_sync(c):
                         return "in-time"
                     if kind == "native-coroutine-returns-None":
                         return None
+                    if kind.startswith("overruns"):
+                        import time as _t
+                        _t.sleep(0.08)          # the last step blocks past the deadline: the function is finished when the timeout callback runs, nothing is cancelled
+                        if kind.endswith("raises"):
+                            raise boom
+                        return "late but complete"
                     return 7
                 except asyncio.CancelledError:
                     state["cancelled"] = True
@@ -411,10 +419,10 @@ def u_run_sync(c):
         out = c.call(c.fn(IL, "IOLoop.run_sync"), loop, f, timeout)
         c.only_raises(out, (_Boom, I.TimeoutError, RuntimeError))
         c.cover("run_sync/%s" % kind)
-        want = {"coroutine-returns-42-at-once": 42, "returns-None": None, "coroutine-returns-7": 7, "returns-a-future-resolved-later": "later", "finishes-just-in-time": "in-time", "native-coroutine-returns-None": None}
+        want = {"coroutine-returns-42-at-once": 42, "returns-None": None, "coroutine-returns-7": 7, "returns-a-future-resolved-later": "later", "finishes-just-in-time": "in-time", "native-coroutine-returns-None": None, "overruns-the-deadline-but-returns": "late but complete"}
         if kind in want:
             c.oblige("post/returns-the-function's-result", out.returned and out.value == want[kind])
-        elif kind in ("raises", "coroutine-raises"):
+        elif kind in ("raises", "coroutine-raises", "overruns-the-deadline-and-raises"):
             c.oblige("post/re-raises-the-function's-exception", out.raised and out.exc is boom)
         elif kind == "never-finishes":
             c.oblige("post/raises-TimeoutError", out.raised and isinstance(out.exc, I.TimeoutError))
@@ -471,7 +479,8 @@ def standin(tier, seed):
                     acts.append(make_action(depth + 1))
                 raises = rng.random() < 0.25
                 returns_failing = (not raises) and rng.random() < 0.12
-                return acts, raises, returns_failing
+                blocks = rng.choice([0, 0, 0, 0, 0.5, 1.0, 2.0])          # a slow callback: the clock moves while it runs, then it schedules its children
+                return acts, raises, returns_failing, blocks
 
             def make_action(depth):
                 k = rng.choice(["cb", "cb", "abs", "rel", "td", "later", "remove", "past"])
@@ -514,7 +523,8 @@ def standin(tier, seed):
                 s["ran_at"] = clock["now"]
                 s["seq"] = len(log)
                 log.append(i)
-                acts, raises, returns_failing = body
+                acts, raises, returns_failing, blocks = body
+                clock["now"] += blocks
                 for a in acts:
                     perform(a)
                 if raises:
